@@ -543,8 +543,11 @@ int slic(const numpy::aligned_array<npy_float32> array, numpy::aligned_array<int
     int* labels = alabels.data();
     std::fill(labels, labels + N, -2);
 
+    if (N == 0) return 0;
+    // A pixel whose distance to every seed is not finite (non-finite data or
+    // an overflowing m) is never claimed: it then stays with the first seed
     std::vector<int> nlabels;
-    nlabels.resize(N, -1);
+    nlabels.resize(N, 0);
 
     std::vector<float> distance;
     distance.resize(N, inf);
@@ -560,6 +563,12 @@ int slic(const numpy::aligned_array<npy_float32> array, numpy::aligned_array<int
             centroids.push_back(
                 centroid_info(l,a,b,y,x));
         }
+    }
+    if (centroids.empty()) {
+        // the image is smaller than the spacing: a single seed in the middle
+        const int y = Ny/2;
+        const int x = Nx/2;
+        centroids.push_back(centroid_info(array.at(y,x,0), array.at(y,x,1), array.at(y,x,2), y, x));
     }
     centroid_counts.resize(centroids.size());
 
